@@ -495,6 +495,34 @@ def h_env_sum_project_values(V, family, N, seed):
         V.check_equal('projector:<A|Heff1(A)>*factors=penalty*<ket|p><p|ket>/factor(p)^2', [got * proj.factor * proj.factor], [pen * ov * ov])
 
 
+def h_project_values(V, family, N, seed):
+    """
+    project_ket_on_bra_1/2 (the updates of compression_): for a target  H psi + phi  (Env_sum, every ket with its own norm factor)
+    the tensor that replaces site n (bond (n, n+1)) of the bra satisfies  factor(bra) <bra_n | P_n> = <bra| (H psi + phi) >,
+    with the full states, factors included, on the right.
+    """
+    import yastn
+    from yastn.tn.mps._env import Env
+    bra = make_state(V, family, N, 'b', seed + 1)
+    psi = make_state(V, family, N, 'a', seed)
+    phi = make_state(V, family, N, 'c', seed + 4)
+    H = make_mpo(V, family, N, 'h', seed + 2)
+    sp = ops_of(family).space()
+    vb, vpsi, vphi, Hm = dense_state(V, bra, sp), dense_state(V, psi, sp), dense_state(V, phi, sp), dense_mpo(V, H, sp)
+    for label, target, want in (('single-target', [H, psi], vb @ (Hm @ vpsi)), ('state-target', [phi], vb @ vphi),
+                                ('sum-of-targets', [[H, psi], [phi]], vb @ (Hm @ vpsi) + vb @ vphi)):
+        env = V.call(Env, bra, target)
+        V.call(env.setup_, to='first')
+        V.call(env.setup_, to='last')
+        for n in range(N):
+            P = V.call(env.project_ket_on_bra_1, n)
+            V.check_equal(f'{label}:factor(bra)<bra_n|project_1(n)>=<bra|target>', [bra.factor * V.call(yastn.vdot, V.call(bra.pre_1site, n), P)], [want])
+        for n in range(N - 1):
+            P = V.call(env.project_ket_on_bra_2, (n, n + 1))
+            V.check_equal(f'{label}:factor(bra)<bra_n,n+1|project_2(n,n+1)>=<bra|target>',
+                          [bra.factor * V.call(yastn.vdot, V.call(bra.pre_2site, (n, n + 1)), P)], [want])
+
+
 def h_measure_values(V, family, N, seed):
     """ measure_1site / measure_2site / measure_nsite against Jordan-Wigner matrices """
     import yastn.tn.mps as mps
@@ -561,6 +589,8 @@ def units(tier, which):
                         U.append(('h_env3_values', f"{lab},precompute={pc}", dict(p, precompute=pc)))
                     if N <= 3:
                         U.append(('h_env_sum_project_values', lab, p))
+                        if which == 'C06' and family != 'spin-dense':
+                            U.append(('h_project_values', lab, p))
                     if N >= 3:
                         for pc in (False, True):
                             for site, to in ((0, 'last'), (N - 1, 'first'), (1, 'last'), (1, 'first')):
